@@ -15,7 +15,7 @@ type orC17 struct {
 	hadBrokenOff  bool
 	lagHist       map[string][]lagSample
 	brokenHist    map[string][]lagSample // replication permanently broken (lag=1) or not (lag=0)
-	roHist        []lagSample // master writable (lag=0) / read-only (lag=1)
+	roHist        []lagSample            // master writable (lag=0) / read-only (lag=1)
 	offSnap       map[*SQLEvent]map[string]bool
 	masterOffRuns int
 }
